@@ -300,11 +300,20 @@ class Check:
             print(f"VIOLATION property={self.pid} replay={path}")
             print("  part=" + name + " " + v2.msg[:2000])
             self.violations.append((name, path, v2.msg))
-        except Exception as e:  # infrastructure problem inside a test function
-            import traceback
+        except Exception as e:
+            if stats["last_fail"] is not None:
+                # Hypothesis could not re-execute the failure identically (e.g. it depends on which object addresses the
+                # process re-uses): the first observed failure is a violation of the property all the same
+                case, v2 = stats["last_fail"]
+                path = self._write_replay(name, to_json(case), v2.msg)
+                print(f"VIOLATION property={self.pid} replay={path}")
+                print("  part=" + name + " (failure depends on process history; not reproduced on immediate re-execution) " + v2.msg[:2000])
+                self.violations.append((name, path, v2.msg))
+            else:  # infrastructure problem inside a test function
+                import traceback
 
-            traceback.print_exc()
-            self.inconclusive.append(f"part {name}: {type(e).__name__}: {e}")
+                traceback.print_exc()
+                self.inconclusive.append(f"part {name}: {type(e).__name__}: {e}")
         self.parts.append((name, stats, examples))
 
     def label_count(self, label):
